@@ -5,7 +5,8 @@
      k = "T" prose text (opaque id), "B" blank, "I" indented prose, "D" doctest line, "U" a dashed underline of the prose
      line above it (a sub-heading in the long description / a `Notes` heading in the footer), "S" a line of the parameter/return
      section (id = position inside the section; the section of a style may contain blank separator lines "SB").
-   doc = header \o section(style) \o footer, written at indentation level `indent`.
+   doc = header \o section(style) \o footer, written at indentation level `indent`; its first line stands on a line of its own below the
+   opening quotes (first = "own") or right behind them (first = "quotes", PEP 257's one-liner position: that line carries NO indentation).
    Split(doc) = <<header, args, footer>>:  SplitConcat  header \o args \o footer = doc
                                            HeaderClean  no section line in header or footer
    Restyle(doc, to) = header \o section(to) \o footer:
@@ -50,13 +51,14 @@ TextIndent(indent, route) == indent + (IF route = "function" THEN 1 ELSE 0)
 \* (it also drops the indentation of the last, whitespace-only line before the closing quotes: any section kind)
 Reindents(indent, st, sk) == "split_reindents_blank_lines" \in Enabled /\ indent >= 1
 
-VARIABLES h, f, from, to, indent, pc, parts, restyled, route, sect
-vars == <<h, f, from, to, indent, pc, parts, restyled, route, sect>>
-Init == /\ h \in HeaderShapes /\ route \in Routes /\ sect \in Sects /\ f \in FooterShapes /\ from \in StyleSet /\ to \in StyleSet /\ indent \in 0..2
+VARIABLES h, f, from, to, indent, pc, parts, restyled, route, sect, first
+vars == <<h, f, from, to, indent, pc, parts, restyled, route, sect, first>>
+Init == /\ first \in {"own", "quotes"}
+        /\ h \in HeaderShapes /\ route \in Routes /\ sect \in Sects /\ f \in FooterShapes /\ from \in StyleSet /\ to \in StyleSet /\ indent \in 0..2
         /\ (\E k \in 1..3 : Styles[k] = from /\ k % NShards = Shard)
         /\ pc = "start" /\ parts = <<>> /\ restyled = <<>>
-DoSplit == pc = "start" /\ parts' = Split(Doc(h, from, f, sect)) /\ pc' = "split" /\ UNCHANGED <<h, f, from, to, indent, restyled, route, sect>>
-DoRestyle == pc = "split" /\ restyled' = Restyle(Doc(h, from, f, sect), to, sect) /\ pc' = "done" /\ UNCHANGED <<h, f, from, to, indent, parts, route, sect>>
+DoSplit == pc = "start" /\ parts' = Split(Doc(h, from, f, sect)) /\ pc' = "split" /\ UNCHANGED <<h, f, from, to, indent, restyled, route, sect, first>>
+DoRestyle == pc = "split" /\ restyled' = Restyle(Doc(h, from, f, sect), to, sect) /\ pc' = "done" /\ UNCHANGED <<h, f, from, to, indent, parts, route, sect, first>>
 Next == DoSplit \/ DoRestyle
 Spec == Init /\ [][Next]_vars
 
@@ -74,5 +76,5 @@ Fired == (IF Reindents(TextIndent(indent, route), from, sect) THEN {"split_reind
          \cup (IF Absorbs THEN {"rest_footer_absorbed_into_rtype"} ELSE {})
 RECURSIVE SetToSeq(_)
 SetToSeq(S) == IF S = {} THEN <<>> ELSE LET x == CHOOSE x \in S : TRUE IN <<x>> \o SetToSeq(S \ {x})
-Dump == pc = "done" => PrintT(ToJson([h |-> h, f |-> f, from |-> from, to |-> to, indent |-> indent, route |-> route, sect |-> sect, devs |-> SetToSeq(Fired)]))
+Dump == pc = "done" => PrintT(ToJson([h |-> h, f |-> f, from |-> from, to |-> to, indent |-> indent, route |-> route, sect |-> sect, first |-> first, devs |-> SetToSeq(Fired)]))
 =====================================================================================
